@@ -439,6 +439,8 @@ struct Real {
 	sounds: Vec<Option<ProbeSoundHandle>>,
 	sound_logs: Vec<Option<Arc<crate::probes::SoundLog>>>,
 	fx_logs: Vec<(Option<usize>, Arc<EffectLog>)>,
+	/// probe effects on send tracks: (send index, log)
+	send_fx_logs: Vec<(usize, Arc<EffectLog>)>,
 	idle: Vec<Option<kira::sound::static_sound::StaticSoundHandle>>,
 }
 
@@ -478,6 +480,7 @@ fn run_case(c: &Case) -> Result<(bool, bool), Failure> {
 		sounds: vec![],
 		sound_logs: vec![],
 		fx_logs,
+		send_fx_logs: vec![],
 		idle: vec![],
 	};
 	let mut model = Model {
@@ -497,15 +500,9 @@ fn run_case(c: &Case) -> Result<(bool, bool), Failure> {
 				let mut b = SendTrackBuilder::new().volume(Decibels(*volume_db));
 				for f in effects {
 					match f {
-						Fx::Gain(g) => {
-							b.add_effect(ProbeEffectBuilder::new(ProbeKind::Gain(*g)));
-						}
-						Fx::Clip(l) => {
-							b.add_effect(ProbeEffectBuilder::new(ProbeKind::Clip(*l)));
-						}
-						Fx::Swap => {
-							b.add_effect(ProbeEffectBuilder::new(ProbeKind::Swap));
-						}
+						Fx::Gain(g) => real.send_fx_logs.push((real.sends.len(), b.add_effect(ProbeEffectBuilder::new(ProbeKind::Gain(*g))))),
+						Fx::Clip(l) => real.send_fx_logs.push((real.sends.len(), b.add_effect(ProbeEffectBuilder::new(ProbeKind::Clip(*l))))),
+						Fx::Swap => real.send_fx_logs.push((real.sends.len(), b.add_effect(ProbeEffectBuilder::new(ProbeKind::Swap)))),
 						Fx::Volume(db) => {
 							b.add_effect(VolumeControlBuilder::new(Decibels(*db)));
 						}
@@ -688,6 +685,9 @@ fn run_case(c: &Case) -> Result<(bool, bool), Failure> {
 				for (_, l) in &real.fx_logs {
 					l.calls.lock().unwrap().clear();
 				}
+				for (_, l) in &real.send_fx_logs {
+					l.calls.lock().unwrap().clear();
+				}
 				let cb = real.mgr.backend_mut().callback(*n, 2);
 				if let Some(p) = &cb.guard.panic {
 					return Err(Failure::panic("", p));
@@ -756,6 +756,19 @@ fn run_case(c: &Case) -> Result<(bool, bool), Failure> {
 					for r in calls.iter() {
 						ensure!(r.len >= 1 && r.len <= c.ibs, "slices-within-internal-buffer", "op #{oi}: an effect was given {} frames (internal buffer {}); case {c:?}", r.len, c.ibs);
 						ensure!((r.dt - 1.0 / SR as f64).abs() < 1e-15, "dt-is-sample-period", "op #{oi}: effect got dt = {}; case {c:?}", r.dt);
+					}
+				}
+				// a send track runs its effects for every frame whether or not anything is routed to
+				// it at the moment (an effect's tail must keep sounding while its sources are paused)
+				for (k, log) in &real.send_fx_logs {
+					let calls = log.calls.lock().unwrap();
+					let total: usize = calls.iter().map(|r| r.len).sum();
+					if model.sends[*k].place == Where::Live {
+						ensure!(total == *n, "every-frame-asked-once", "op #{oi}: an effect on send track {k} processed {total} frames in a callback of {n}; case {c:?}");
+					}
+					for r in calls.iter() {
+						ensure!(r.len >= 1 && r.len <= c.ibs, "slices-within-internal-buffer", "op #{oi}: an effect on send track {k} was given {} frames (internal buffer {}); case {c:?}", r.len, c.ibs);
+						ensure!((r.dt - 1.0 / SR as f64).abs() < 1e-15, "dt-is-sample-period", "op #{oi}: an effect on send track {k} got dt = {}; case {c:?}", r.dt);
 					}
 				}
 			}
